@@ -16,11 +16,15 @@ PROPS = {
     # NoEarlyRemoval belongs to C04 as well: "one stable socket while the association is alive" and "any datagram arriving at
     # that source address from any target is delivered" both fail when something other than the promised timeout (a failed
     # send, a datagram from a host that is not the DNS server, ...) tears the association down
-    "C04": ["SrcPrivate", "SrcStable", "OwnerOnly", "OnePerClient", "CreateOnce", "CreateOnlyValid", "NoEarlyRemoval"],
+    # ReplyComplete likewise: "any datagram arriving at that source address from any target is delivered to that client" (a
+    # zero-length datagram is a datagram)
+    "C04": ["SrcPrivate", "SrcStable", "OwnerOnly", "OnePerClient", "CreateOnce", "CreateOnlyValid", "NoEarlyRemoval", "ReplyComplete"],
     "C14": ["NoEarlyRemoval", "ReclaimedInTime", "ShutdownReclaimed", "RemoveOnce", "DeadlineMonotone", "WriteExtends",
             "NoEarlyClose", "CloseOnce", "FastCloseRule"],
-    "C16": ["MetricsLanguage", "CreateOnce", "CreateOnlyValid", "PktCSound", "PktTSound", "PktCPerDatagram", "PktTPerReply", "RemoveOnce",
-            "ShutdownReclaimed"],
+    # ReclaimedInTime in C16: "removed once" means the removal IS reported when the association's time is up, not only when the
+    # listener is closed
+    "C16": ["MetricsLanguage", "CreateOnce", "CreateOnlyValid", "PktCSound", "PktTSound", "PktCPerDatagram", "PktTPerReply", "PktTSize",
+            "RemoveOnce", "ReclaimedInTime", "ShutdownReclaimed"],
 }
 ALL_PROPS = sorted({p for v in PROPS.values() for p in v})
 
@@ -56,6 +60,7 @@ WHAT = {
     "PktTSound": "AddPacketFromTarget reports do not match the datagrams seen on the wire (status / sizes / key)",
     "PktCPerDatagram": "a client datagram on an association was reported not exactly once (or on the wrong association)",
     "PktTPerReply": "a datagram read from an association's socket was reported not exactly once",
+    "PktTSize": "AddPacketFromTarget did not carry the size read from the target (whatever the outcome of the relay)",
 }
 
 
@@ -188,6 +193,17 @@ def run_real(ctx, behs, name, prom=False, procs=None, timeout=900, validator="lo
                 raise vlib.Inconclusive("udpnat replay driver timeout (%s)" % name)
             if over:
                 raise vlib.Inconclusive("udpnat replay driver killed by the memory watchdog (above 4 GiB resident) (%s)" % name)
+            if p.returncode != 0 and ("panic:" in (se or "") or "fatal error:" in (se or "")) and "outline-ss-server/" in (se or ""):
+                for q in ps:
+                    q[0].kill()
+                m = re.search(r"outline-ss-server/(\S+?)\(.*?\)\n\s+\S*?/((?:service|net|prometheus|ipinfo|internal)/[\w./]+\.go):(\d+)", se)
+                where = "%s:%s %s" % (m.group(2), m.group(3), m.group(1)) if m else "?"
+                msg = (re.search(r"(panic: [^\n]*|fatal error: [^\n]*)", se) or [""])[0]
+                last = vlib.read_ndjson(tf)[-12:] if os.path.exists(tf) else []
+                ctx.violation({"module": "UdpNat", "kind": "panic-in-udp-path", "where": where},
+                              "the process died while relaying UDP (%s, behaviours %d..%d): %s at %s" % (name, lo, hi, msg, where),
+                              {"behaviours": behs[lo:hi], "cmd": " ".join(cmd[1:]), "last_trace_lines": last, "stderr_tail": se[-3000:]})
+                raise vlib.Inconclusive("udpnat replay driver died (reported as a violation above): %s" % msg)
             if p.returncode != 0:
                 for q in ps:
                     q[0].kill()
